@@ -13,8 +13,10 @@ RULE = ('cases: (a) one Calendar(key=None, holidays, weekend, t0, t1, adj) on a 
         '{0, 5%, 20%, 50%} x weekend {Sat-Sun, Fri-Sat, Sun, none} x adj {f,p,m}, holidays = random days plus multi-day runs across month ends, around weekends and at '
         'both range ends (some just outside [t0,t1]); each case carries a batch of queries on days biased to holidays/run borders/month ends/range ends: is_bday, '
         'is_holiday, adjust (all spellings of adj), add for n in [-40,40], bdays, drange(.,.,"1b") and "sweeps" (is_bday, adjust, add for EVERY n in [-40,40] of one day; '
-        'thorough tier: every day of the range for ranges <= 400 days); (b) registry call sequences calendar(key, holidays, weekend, t0, t1) over 2-3 keys with reads, '
-        'overwrites, empty holiday lists. Observations (ordinals / error class) are compared in Coq with M_bdays; the oracle recomputes every answer by walking '
+        'thorough tier: every day of the range for ranges <= 400 days); (b) registry histories over 1-3 keys: calendar(key, holidays, weekend, t0, t1) calls with reads, overwrites, empty holiday lists, default ranges; and histories that '
+        'interleave table-path queries (add +-2..+-5, bdays, drange 1b: they force _populate on the registered object) between the registrations of a key and after the last one, '
+        're-registering by key or through the fetched object calendar(calendar(key), holidays=...), queries placed on the days whose holiday status changed; every answer is checked '
+        'day by day against the holidays LAST registered for that key. Observations (ordinals / error class) are compared in Coq with M_bdays; the oracle recomputes every answer by walking '
         'day by day from the property text and additionally checks on the real code bdays(t, add(t,n)) == n, add(add(t,n),-n) == t for business days, '
         'add(t,2) == add(add(t,1),1). Indexed-path (|n|>1) results that leave [t0,t1] (KeyError) are outside the property (model reproduces them, oracle ignores them); a returned date must always be the n-th business day and the single-step path (|n|<=1, no table) must return it even beyond t1/t0. '
         'add(t, 0) is not executed when the code\'s own adjust(t) is a holiday (unbounded loop; model: OutOfFuel). non-trivial = calendar with holidays or '
@@ -22,7 +24,7 @@ RULE = ('cases: (a) one Calendar(key=None, holidays, weekend, t0, t1, adj) on a 
 EXPLANATION = ('theorems C05_* hold for EVERY holiday predicate, weekend predicate, month function and range: is_bday characterisation; adjust f/p = least/greatest business day '
                'with termination bound; m = f unless the month changes; dt2int = day-by-day count, int2dt its inverse, table successor = next business day; add (both paths) '
                '= the unique n-th business day, found whenever it lies in the calendar; exact termination condition of the |n|<=1 loop; paths agree; bdays(t, add(t,n)) = n; '
-               'add inverse; drange 1b = the business days between the adjusted endpoints, strictly increasing; registry last write wins for any call history. '
+               'add inverse; drange 1b = the business days between the adjusted endpoints, strictly increasing; registry last write wins for any history of registrations, fetches and table-path uses, cached tables included (a table-path answer after re-registration is computed from the table of the LAST registered arguments). '
                'The f/p loops of adjust, is_holiday/is_bday, and the loop path and path selector of add are regenerated from /repo by the translator and proved equal to '
                'the model (P_bdays_gen.v); the correspondence ties the rest (table construction with dateutil.rrule, dict lookups, dispatch on adj strings, drange, registry)')
 TRUSTED = ['translator/py2coq.py + gen_drange.py (Calendar.is_holiday, is_bday, adjust f/p loops, add loop path and |days|>1 selector)',
@@ -98,9 +100,9 @@ def _ord(x):
 
 class Runner:
     """runs the queries of one case on the real Calendar; collects observations and oracle violations"""
-    def __init__(self, case):
+    def __init__(self, case, cal=None):
         self.case = case
-        self.cal = Calendar(key=None, holidays=[D(h) for h in case['hol']], weekend=list(case['wk']),
+        self.cal = cal if cal is not None else Calendar(key=None, holidays=[D(h) for h in case['hol']], weekend=list(case['wk']),
                             t0=D(case['t0']), t1=D(case['t1']), adj=case['adj'])
         self.o = Oracle(case)
         self.viol = None
@@ -202,27 +204,50 @@ class Runner:
 def cal_obs(c):
     return [sorted(_ord(h) for h in c.holidays), [int(w) for w in c.weekend], _ord(c.t0), _ord(c.t1)]
 
+def norm_ops(ops):
+    """registry ops: ['call', k, h, w, a, b] | ['obj', k, h, w, a, b] | ['q', k, query]; old corpus form [k, h, w, a, b] = call"""
+    return [(['call'] + list(o)) if isinstance(o[0], int) else list(o) for o in ops]
+
 def impl_registry(case):
     calendars.clear()
-    last = {}
+    last = {}            # key -> [holidays, weekend, t0, t1] LAST registered (plain bookkeeping from the property text)
     obs = []; viol = None
-    for i, (k, h, w, a, b) in enumerate(case['ops']):
+    DEFAULT = [[], [5, 6], TMIN_ORD, TMAX_ORD]
+    for i, op in enumerate(norm_ops(case['ops'])):
+        kind, k = op[0], op[1]
         key = 'c05key%d' % k
+        if kind == 'q':
+            c = calendar(key)
+            if k not in last: last[k] = list(DEFAULT)
+            reg = last[k]
+            r = Runner({'t0': reg[2], 't1': reg[3], 'hol': reg[0], 'wk': reg[1], 'adj': 'm'}, cal=c)
+            obs.append(r.run(op[2]))
+            if viol is None and r.viol:
+                viol = 'op #%d on calendar(%r) (last registered with holidays=%s): %s' % (i, key, reg[0] if len(reg[0]) <= 12 else '%d days' % len(reg[0]), r.viol)
+            continue
+        h, w, a, b = op[2:6]
         kw = {}
         if h is not None: kw['holidays'] = [D(x) for x in h]
         if w is not None: kw['weekend'] = list(w)
         if a is not None: kw['t0'] = D(a)
         if b is not None: kw['t1'] = D(b)
-        c = calendar(key, **kw)
+        if kind == 'obj':
+            if k not in last: last[k] = list(DEFAULT)
+            c = calendar(calendar(key), **kw)
+            if kw:   # registered through the object: arguments left out (or empty lists) are taken from the object
+                cur = last[k]
+                last[k] = [sorted(h) if h else cur[0], list(w) if w else cur[1], a if a is not None else cur[2], b if b is not None else cur[3]]
+        else:
+            c = calendar(key, **kw)
+            if kw:
+                last[k] = [sorted(h or []), list(w) if w is not None else [5, 6], a if a is not None else TMIN_ORD, b if b is not None else TMAX_ORD]
+            elif k not in last:
+                last[k] = list(DEFAULT)
         o = cal_obs(c)
         obs.append(o)
-        if kw:
-            last[k] = [sorted(h or []), list(w) if w is not None else [5, 6], a if a is not None else TMIN_ORD, b if b is not None else TMAX_ORD]
-        elif k not in last:
-            last[k] = [[], [5, 6], TMIN_ORD, TMAX_ORD]
         if viol is None and o != last[k]:
-            viol = 'call #%d calendar(%r%s) returned a calendar with holidays=%s weekend=%s t0=%s t1=%s but key %r was last registered with holidays=%s weekend=%s t0=%s t1=%s' % (
-                i, key, ''.join(', %s=...' % x for x in kw), o[0], o[1], o[2], o[3], key, last[k][0], last[k][1], last[k][2], last[k][3])
+            viol = 'op #%d calendar(%s%s) returned a calendar with holidays=%s weekend=%s t0=%s t1=%s but key %r was last registered with holidays=%s weekend=%s t0=%s t1=%s' % (
+                i, repr(key) if kind == 'call' else 'calendar(%r)' % key, ''.join(', %s=...' % x for x in kw), o[0], o[1], o[2], o[3], key, last[k][0], last[k][1], last[k][2], last[k][3])
         if viol is None and o[0] and c.is_bday(D(o[0][0])):
             viol = 'calendar(%r) says its registered holiday %s is a business day' % (key, D(o[0][0]).date())
     return {'status': 'ok', 'obs': obs, 'viol': viol}
@@ -256,19 +281,27 @@ def opt(x, f):
     return 'None' if x is None else '(Some %s)' % f(x)
 def coq_case(case):
     if case['kind'] == 'reg':
-        return '[' + '; '.join('((%d), %s, %s, %s, %s)' % (k, opt(h, zl), opt(w, zl), opt(a, lambda x: '(%d)' % x), opt(b, lambda x: '(%d)' % x))
-                               for k, h, w, a, b in case['ops']) + ']'
+        items = []
+        for op in norm_ops(case['ops']):
+            if op[0] == 'q':
+                items.append('RQ (%d) (%s)' % (op[1], coq_q(op[2])))
+            else:
+                k, h, w, a, b = op[1:6]
+                items.append('%s (%d) %s %s %s %s' % ('RCall' if op[0] == 'call' else 'RObj', k, opt(h, zl), opt(w, zl), opt(a, lambda x: '(%d)' % x), opt(b, lambda x: '(%d)' % x)))
+        return '[' + '; '.join(items) + ']'
     return '((%d), (%d), %s, %s, %s, [%s])' % (case['t0'], case['t1'], zl(case['hol']), zl(case['wk']), ADJ[case['adj']],
                                              '; '.join(coq_q(q) for q in case['q']))
 
 def nontrivial(case, result):
     if case['kind'] == 'reg':
-        keys = [o[0] for o in case['ops'] if any(x is not None for x in o[1:])]
+        ops = norm_ops(case['ops'])
+        keys = [o[1] for o in ops if o[0] != 'q' and any(x is not None for x in o[2:6])]
         return len(keys) != len(set(keys))
     return bool(case['hol'] or case['wk'])
 def shape(case):
     if case['kind'] == 'reg':
-        return 'registry/%d' % len(case['ops'])
+        ops = norm_ops(case['ops'])
+        return 'registry/%s' % ('interleaved-table-queries' if any(o[0] == 'q' for o in ops) else 'calls-only')
     return 'cal/%s/%s/%s' % (case.get('dens', '?'), case.get('wkname', '?'), case['adj'])
 
 # ------------------------------------------------------------------ generation
@@ -343,18 +376,69 @@ def gen_calendar(rng, dens, wkname, adj, tier, span=None):
     return case
 
 def gen_registry(rng):
+    """calls only (reads, overwrites, default ranges): the registered arguments"""
     nkeys = rng.choice([1, 2, 3])
     ops = []
     base = datetime.date(rng.randrange(1950, 2100), 1, 1).toordinal()
     for _ in range(rng.randrange(2, 10)):
         k = rng.randrange(nkeys)
         if rng.random() < 0.4:
-            ops.append([k, None, None, None, None]); continue
+            ops.append(['call', k, None, None, None, None]); continue
         h = sorted(set(base + rng.randrange(0, 400) for _ in range(rng.randrange(0, 5)))) if rng.random() < 0.8 else None
         w = rng.choice(list(WEEKENDS.values())) if rng.random() < 0.4 else None
         a = base - rng.randrange(0, 50) if rng.random() < 0.4 else None
         b = base + 400 + rng.randrange(0, 50) if rng.random() < 0.4 else None
-        ops.append([k, h, w, a, b])
+        ops.append(['call', k, h, w, a, b])
+    return {'kind': 'reg', 'ops': ops}
+
+def gen_registry_tables(rng):
+    """every history interleaves table-path queries (add +-2..+-5, bdays, drange '1b': they force _populate on the registered object)
+    between the registrations of a key and after the last one; re-registrations change the holidays (by key, or through the fetched
+    object), and the queries sit on the days whose status changed"""
+    nkeys = rng.choice([1, 1, 2])
+    t0 = datetime.date(rng.randrange(1950, 2100), rng.randrange(1, 13), rng.randrange(1, 29)).toordinal()
+    t1 = t0 + rng.randrange(120, 420)
+    ops = []; cur = {}
+    def holidays(old=None):
+        H = set(old or [])
+        for d in list(H):
+            if rng.random() < 0.5: H.discard(d)
+        for _ in range(rng.randrange(3, 14)):
+            d = rng.randrange(t0, t1 + 1); H.update(range(d, d + rng.choice([1, 1, 1, 2, 4])))
+        return sorted(H)
+    def burst(k, hot):
+        wk = cur[k][1]
+        for _ in range(rng.randrange(2, 5)):
+            d = min(max((rng.choice(hot) if hot and rng.random() < 0.8 else rng.randrange(t0, t1 + 1)) + rng.randrange(-3, 4), t0), t1)
+            r = rng.random()
+            if r < 0.55: q = ['add', rng.choice([None, None, 'f', 'p']), d, rng.choice([2, 3, 4, 5, -2, -3, -4, -5])]
+            elif r < 0.8: q = ['bd', rng.choice([None, 'f', 'p']), d, min(t1, d + rng.randrange(1, 25))]
+            else: q = ['dr', max(t0, d - rng.randrange(0, 8)), min(t1, d + rng.randrange(1, 15))]
+            ops.append(['q', k, q])
+    for k in range(nkeys):
+        cur[k] = [holidays(), rng.choice(list(WEEKENDS.values())), t0, t1]
+        ops.append(['call', k, cur[k][0], cur[k][1], t0, t1])
+    for k in range(nkeys):
+        if rng.random() < 0.8: burst(k, cur[k][0])
+    for _ in range(rng.randrange(2, 6)):
+        k = rng.randrange(nkeys)
+        old = cur[k]
+        r = rng.random()
+        if r < 0.15:
+            ops.append(['call', k, None, None, None, None]); hot = old[0]
+        else:
+            H = holidays(old[0])
+            hot = sorted(set(H) ^ set(old[0])) or H
+            if r < 0.6:
+                w = rng.choice([old[1], old[1], rng.choice(list(WEEKENDS.values()))])
+                cur[k] = [H, w, t0, t1]; ops.append(['call', k, H, w, t0, t1])
+            else:       # through the fetched object: arguments left out are inherited (never an empty list: `x or old` keeps the old one)
+                w = rng.choice([None, None, rng.choice([[5, 6], [4, 5], [6]])])
+                cur[k] = [H, w or old[1], t0, t1]; ops.append(['obj', k, H, w, None, None])
+        if rng.random() < 0.85: burst(k, hot)
+        if rng.random() < 0.3: ops.append(['call', k, None, None, None, None])
+    for k in range(nkeys):      # after the last registration
+        burst(k, cur[k][0])
     return {'kind': 'reg', 'ops': ops}
 
 def gen_cases(rng, tier):
@@ -368,16 +452,33 @@ def gen_cases(rng, tier):
                     if tier != 'quick' and rng.random() < 0.6:
                         span = rng.choice([365, 366, 380, 400])
                     cases.append(gen_calendar(rng, dens, wkname, adj, tier, span))
-    for _ in range(60 if tier == 'quick' else 400):
+    for _ in range(30 if tier == 'quick' else 150):
         cases.append(gen_registry(rng))
+    for _ in range(60 if tier == 'quick' else 400):
+        cases.append(gen_registry_tables(rng))
     return cases
 
 def shrink(case):
     if case['kind'] == 'reg':
-        ops = case['ops']
+        ops = norm_ops(case['ops'])
+        def bounded(ops2):
+            # keep every query on a key that was registered with an explicit range (a query on the default 1900-2300
+            # calendar populates 146097 days: slow in Python and in the model)
+            ranged = set()
+            for o in ops2:
+                if o[0] == 'q':
+                    if o[1] not in ranged: return False
+                elif o[0] == 'call' and any(x is not None for x in o[2:6]):
+                    if o[4] is not None and o[5] is not None: ranged.add(o[1])
+                    else: ranged.discard(o[1])
+            return True
         for i in range(len(ops)):
-            if len(ops) > 1:
+            if len(ops) > 1 and bounded(ops[:i] + ops[i + 1:]):
                 yield dict(case, ops=ops[:i] + ops[i + 1:])
+        for i, o in enumerate(ops):
+            if o[0] != 'q' and o[2] and len(o[2]) > 1:
+                for j in range(len(o[2])):
+                    yield dict(case, ops=ops[:i] + [o[:2] + [o[2][:j] + o[2][j + 1:]] + o[3:]] + ops[i + 1:])
         return
     q = case['q']
     if len(q) > 1:
